@@ -32,7 +32,9 @@ Inductive action :=
 | ANames (c : str) (multiprefix uhnames : bool)
 | AWho (c : str)
 | AReset
-| AIsupport (channellen : N).      (* the server announces ISUPPORT CHANNELLEN=n (numeric 005) *)
+| AIsupport (channellen : N)
+| ALate (c : str).                (* replies to the bot's NAMES / MODE / MODE +b / WHO about a channel it is NOT on
+                                     (it has parted or been kicked meanwhile, or never was there) *)      (* the server announces ISUPPORT CHANNELLEN=n (numeric 005) *)
 
 Definition SERVER : str := [105; 114; 99; 46; 115; 114; 118].     (* "irc.srv": a server name has a dot, a nick never *)
 Definition RESET : str := [82; 69; 83; 69; 84].                    (* pseudo-message: the driver reconnects *)
@@ -327,6 +329,11 @@ Definition step (nick0 : str) (mp uh : bool) (s : srv) (a : action) : srv * list
         (Srv nick0 (rename_user (s_me s) nick0 (s_users s)) (vmap (del_member (s_me s)) (s_chans s)),
          [Msg [] RESET []])
       else (s, [])
+  | ALate c =>
+      match idict_get c (s_chans s), idict_get (s_me s) (s_users s) with
+      | Some ch, Some u => (s, if is_member (s_me s) ch then [] else burst_rest s u c ch mp uh)
+      | _, _ => (s, [])
+      end
   | AIsupport n =>
       (* nothing changes on the server; the history generator only uses channel names of at most n characters afterwards *)
       (s, [Msg SERVER str_005 [s_me s; CHANNELLEN_EQ ++ py_str_Z (Z.of_N n); [115; 117; 112; 112; 111; 114; 116; 101; 100]]])
